@@ -46,7 +46,8 @@ CLAIMED.update({
               "annealing, MCMC personalizations and non-finite scenarios are recorded (torch.randn / torch.rand outputs, "
               "state snapshots) together with from-scratch evaluations of D = d_attach + beta * d_regul at the old and proposed "
               "values; in half of the runs the uniform draws are chosen 0.2 % below / above the reference alpha (the abstract "
-              "levels of the specification made concrete). SamplerTrace.tla decides every step."),
+              "levels of the specification made concrete; u = 0 where alpha underflows); scenarios with prohibitive and NaN proposals "
+              "for population blocks and for one individual. SamplerTrace.tla decides every step."),
         note=("Ties |u - alpha| <= 1e-5 alpha accept either outcome (counted). The mixture model's target is transcribed as "
               "built. Generator quality is assumed. Trusted: TLC, the recorder, float64 evaluation of exp(-D)."),
         technique="TLA+ spec + TLC exhaustive; code->spec trace validation; directed draws at spec levels",
@@ -60,7 +61,9 @@ CLAIMED.update({
               "compute_sufficient_statistics, update_parameters) and TLC compares prior mean, prior variance, scalar and per-feature "
               "noise variance, compute-then-assign order and population-mean identity with the specification (MStepTrace.tla), "
               "checking that the records cover the space; real fits incl. the mixture model and a run without memory-less phase "
-              "are validated against SaemTrace.tla (BatchUpdate, burn-in flag, statistics identity)."),
+              "(entries missing inside visits, a starved mixture cluster) are validated against SaemTrace.tla: BatchUpdate, burn-in flag, "
+              "statistics identity and, at every iteration, the closed forms evaluated by the recorder on the statistics in force and "
+              "the data mask (noise = RMS residual over observed entries, probabilities = mean responsibilities summing to one)."),
         note=("Exact on the enumerated integer cases (float32 squares compared within 2e-5 relative); composition argument: every "
               "iteration calls exactly these rule functions with the statistics in force and the pre-step state (trace-validated). "
               "Mixture responsibilities are bound only through fit traces."),
@@ -69,7 +72,7 @@ CLAIMED.update({
     "C05": dict(
         engine="Saem", category="model_checking",
         text=("TLC checks PhaseRule, StepIndexRule, BurnInLength, PowerRefusedInv, BatchUpdate, SampledOnce and Termination of "
-              "specs/Saem.tla over every configuration with n_iter <= 12 (burn-in as count or fraction, six step powers) and "
+              "specs/Saem.tla over every configuration with n_iter <= 12 (burn-in as count or fraction in tenths / eighths, six step powers) and "
               "every iteration; real fits of sampled configurations on several model kinds are recorded (statistics of the "
               "iteration, statistics used, burn-in flag) and the derived facts - memoryless or not, the step index m that "
               "explains every component of S_k, the refusal of the constructor, the resolved burn-in length - are validated by "
@@ -99,7 +102,7 @@ CLAIMED.update({
               "of 2-3 individuals (identifiers whose string order differs from numeric order, data variants incl. one with a "
               "non-finite attachment) and every scenario (modify another individual, every permutation, every single individual, "
               "2-3 workers); TLC-enumerated scenarios are executed on a real fitted model (per-individual terms at fixed latent "
-              "values, totals, a seeded mean_posterior chain, scipy_minimize with n_jobs 1-3) and TLC checks the recorded "
+              "values, totals, a seeded mean_posterior / mode_posterior chain, scipy_minimize with n_jobs 1-3 on uneven, non-monotone workloads) and TLC checks the recorded "
               "relations (CohortTrace.tla): untouched individuals bit-identical when another is modified, per-identifier equality "
               "under permutation / alone / other worker counts, totals = sums, outputs keyed by input identifiers in input order; "
               "plus per-individual decision locality of the individual sampler (SamplerTrace.tla)."),
@@ -144,7 +147,8 @@ CLAIMED.update({
               "and without sources, seeded population values, optionally an extreme progressor, a large Weibull scale or a reverted "
               "proposal on the velocities), the real re-centring is applied and TLC checks the verdicts (TrajectoryTrace.tla): "
               "trajectories, attachments and event likelihoods unchanged, zero-mean log-accelerations, every mixing-matrix row "
-              "orthogonal in the metric to the progression direction."),
+              "orthogonal to the progression direction in the metric - both evaluated from the terms of Trajectory.tla part D, also "
+              "for velocities near the single-precision floor, features far apart at the reference time and the shared-speed model."),
         note=("Level 'other': invariance and orthogonality are numeric facts judged with tolerances 1e-5 (1 + |value|), 1e-6, 1e-5 "
               "||row|| ||G v0||; TLC decides the gauge algebra exactly and enumerates the patterns."),
         technique="TLA+ gauge algebra checked exactly by TLC; spec-enumerated patterns run on real states; code->spec conformance",
@@ -171,7 +175,9 @@ CLAIMED.update({
               "across calls, annealing switched on) / dict unchanged, no other State holding call data reachable from the model) "
               "and results carrying the same term <<call, params, inputs, seed>> must be bit-identical across different histories; "
               "six directed histories (MC_ModelLifecycle.tla Script1-6: a query between two fits or not, before a save / load or "
-              "not) are generated by TLC and replayed in the same pool."),
+              "not, failing calls in between) are generated by TLC and replayed in the same pool; a call that fails on its inputs "
+              "(FailedCall) must raise and leave the model exactly as it was; settings objects: Settings.tla replayed on real "
+              "AlgorithmSettings (isolation, read-only operations, save / load round trip, stable defaults)."),
         note=("A re-fit is modelled as built (continues from the latent values held in the state). Bounded histories; "
               "tiny cohorts and few iterations. Trusted: TLC, the replay driver, hashing of result arrays."),
         technique="TLA+ spec + TLC exhaustive; spec->code replay of call histories",
